@@ -20,7 +20,10 @@ RULE = ("grammar-generated BED/BED6/narrowPeak/VCF/VCF-with-genotypes/SAM/GTF/FA
         "concatenate, in-between writes (in-place compaction) x optional replacement of a subset of the entry type's fields at the end "
         "or INSIDE the program (operands of a concatenate with different replaced-field sets); a fixed family on a 7-record table of "
         "every format: a plain slice right after a non-contiguous selection with no write in between (d[::2][1:3], d[mask][:3], "
-        "d[[4,0,2,6]][1:] ...), then written / concatenated / replaced, LF and CRLF; "
+        "d[[4,0,2,6]][1:] ...), then written / concatenated / replaced, LF and CRLF; on a table of equal-sized records of every format: "
+        "integer-list reorderings of neighbours keeping first and last in place and repetitions whose lengths add up to the spanned "
+        "range; tables are shared objects: a child slice is written first, then the PARENT is written/re-selected/replaced "
+        "(`seq`); columns are read (cached) before concatenations (`get`); "
         "observable = bytes written by bnp.open(out,'w').write(result). Non-trivial = program has >= 2 steps and the selection "
         "is a proper/re-ordered/repeated subset, or >= 1 replaced field")
 EXHAUSTIVE = {"quick": False, "thorough": False}
@@ -31,6 +34,8 @@ ASSUMPTIONS = [
     "npstructures RaggedView2(starts, lens) rows / .ravel() = slices of the flat data / their concatenation",
     "reshape(-1, n_cols) of the delimiter table = per-line delimiter lists (all lines of a well-formed file have n_cols columns)",
     "single integer index t[i] returns one eager entry that cannot be written; its values are C05's subject",
+    "every table of a case is read once and shared by all its uses in the program (Python object identity); in the Lean model "
+    "values are immutable, `seq` only propagates failure and `get` (reading a column) is the identity on the extractor",
     "replacement values are int / string / strand columns (float and quality formatting are C03/C18)",
     "BAM: records produced by an independent spec-level encoder in this module; BamBuffer has no concatenate and does not "
     "support modified writes, so BAM programs are selections only",
